@@ -133,6 +133,8 @@ def load_families():
     F['error-late'] = lambda n: '- a\n' * n + '- [\n'
     F['plain-colon-words'] = lambda n: 'a:b ' * n
     F['hash-words'] = lambda n: 'a#b ' * n
+    F['keyword-like-words'] = lambda n: '- yellow\n- name\n- title\n- fine\n- other\n- 1x\n- .x\n- ~x\n- =x\n- <x\n' * (n // 10)
+    F['keyword-like-keys'] = lambda n: ''.join('yellow%d: name\n' % i for i in range(n))
     return F
 
 
@@ -168,6 +170,7 @@ def dump_values():
     V['long-keys'] = lambda n: {'k' * 200 + str(i): 1 for i in range(n // 20)}
     V['complex-keys'] = lambda n: {(i, i): 1 for i in range(n)} if False else {'a\nb%d' % i: 1 for i in range(n)}
     V['none-bools'] = lambda n: [None, True, False] * (n // 3)
+    V['keyword-like-strs'] = lambda n: ['yellow', 'name', 'title', 'fine', 'other', '1x', '.x', '~x'] * (n // 8)
     return V
 
 
@@ -210,9 +213,9 @@ def gen_units(alpha):
 def plan(tier, seed):
     q = tier == 'quick'
     jobs = [('load', name) for name in load_families()]
-    jobs += [('loadwild', name) for name in ('block-seq', 'plain-words', 'flow-seq', 'block-map', 'seq-of-maps')]
+    jobs += [('loadwild', name) for name in ('block-seq', 'plain-words', 'flow-seq', 'block-map', 'seq-of-maps', 'keyword-like-words', 'keyword-like-keys', 'ints', 'bools-nulls')]
     jobs += [('dump', name) for name in dump_values()]
-    jobs += [('dumpwild', name) for name in ('list-distinct-strs', 'dict-keys', 'list-strs')]
+    jobs += [('dumpwild', name) for name in ('list-distinct-strs', 'dict-keys', 'list-strs', 'keyword-like-strs', 'list-ints')]
     units = list(gen_units(CORE))
     core14 = set(CORE[:14])
     NP = 48
